@@ -30,6 +30,11 @@ pub enum Pipe {
   FlatMapIter,
   /// concat_all_threads: inner 0 running, the outer may hand over inner 1 / complete
   ConcatAll,
+  /// concat_all_threads with inner 0 running and inner 1 already waiting in the queue
+  ConcatQueued,
+  WithLatestFrom,
+  SkipUntil,
+  Sample,
 }
 
 pub const C10_PIPES: &[Pipe] = &[Pipe::Subject, Pipe::Merge, Pipe::Zip, Pipe::CombineLatest, Pipe::TakeUntil, Pipe::MergeAll, Pipe::ConcatAll, Pipe::Share, Pipe::ObserveOn, Pipe::Delay];
@@ -150,11 +155,14 @@ pub fn build(p: Pipe) -> Rig {
         extra: vec![],
       }
     }
-    Pipe::Merge | Pipe::Zip | Pipe::CombineLatest | Pipe::TakeUntil => {
+    Pipe::Merge | Pipe::Zip | Pipe::CombineLatest | Pipe::TakeUntil | Pipe::WithLatestFrom | Pipe::SkipUntil | Pipe::Sample => {
       let op = match p {
         Pipe::Merge => Op2::Merge,
         Pipe::Zip => Op2::Zip,
         Pipe::CombineLatest => Op2::CombineLatest,
+        Pipe::WithLatestFrom => Op2::WithLatestFrom,
+        Pipe::SkipUntil => Op2::SkipUntil,
+        Pipe::Sample => Op2::Sample,
         _ => Op2::TakeUntil,
       };
       keep!(subscribe_t(cat::build2_t(op, cat::hot_tagged_t(0), cat::hot_tagged_t(1)), probe));
@@ -252,6 +260,14 @@ pub fn build(p: Pipe) -> Rig {
         cat::handle_t(9).complete();
       });
       Rig { feed: feed_tags(vec![0, 1]), ninputs: 2, unsub, subscribe: None, probes: vec![probe], drain: nodrain, peek: None, extra: vec![("outer.next(inner1)", hand_over), ("outer.complete()", outer_done)] }
+    }
+    Pipe::ConcatQueued => {
+      let src = cat::hot_tagged_t(9);
+      keep!(src.map(|v: Val| cat::hot_tagged_t(v.sym().konst().unwrap() as usize)).concat_all_threads().actual_subscribe(probe));
+      let mut h = cat::handle_t(9);
+      h.next(Val::c(0));
+      h.next(Val::c(1)); // waits in the queue until inner 0 completes
+      Rig { feed: feed_tags(vec![0, 1]), ninputs: 2, unsub, subscribe: None, probes: vec![probe], drain: nodrain, peek: None, extra: vec![] }
     }
     Pipe::Finalize => {
       let fin = move || {
@@ -604,9 +620,10 @@ pub fn harnesses() -> Vec<HarnessDef> {
   };
   add("c10_lockset_order", vec!["C10"], "Eraser lockset on every subscriber callback + lock-order cycle detection between two logical threads' scripts (sufficient conditions that cover all interleavings of the scripts, not only explored ones)", |t| format!("9 thread-safe pipelines; 2 threads x {} operations (next/complete/error on every input, unsubscribe, subscribe)", if t { 3 } else { 2 }), Box::new(|t| c10_lockset_order(if t { 3 } else { 2 })), 2_000_000, 40_000_000);
   add("c10_preempt", vec!["C10"], "two logical threads with nested pre-emption at every MutArc lock acquisition, inside callbacks and at yield points: overlapping callbacks, deadlock (lock cycle), self-deadlock, panic, common delivery order", |t| format!("9 thread-safe pipelines; 2 threads x {} operations; <= {} pre-emptions, nesting depth 2", if t { 2 } else { 2 }, if t { 3 } else { 2 }), Box::new(|t| c10_preempt(C10_PIPES, 2, if t { 3 } else { 2 })), 3_000_000, 40_000_000);
-  add("c02_threads", vec!["C02"], "an unsubscribing logical thread racing an emitting one at every lock acquisition: no callback may start after unsubscribe() returned (scheduled work is drained afterwards)", |_| "9 thread-safe pipelines + finalize_threads, debounce, throttle(tailing); 2 threads x 2 operations".to_string(), Box::new(|_| c10_preempt(&[Pipe::Subject, Pipe::Merge, Pipe::Zip, Pipe::CombineLatest, Pipe::TakeUntil, Pipe::MergeAll, Pipe::Share, Pipe::ObserveOn, Pipe::Delay, Pipe::Finalize, Pipe::Debounce, Pipe::ThrottleTail], 2, 3)), 3_000_000, 40_000_000);
+  add("c02_threads", vec!["C02"], "an unsubscribing logical thread racing an emitting one at every lock acquisition: no callback may start after unsubscribe() returned (scheduled work is drained afterwards)", |_| "9 thread-safe pipelines + finalize_threads, debounce, throttle(tailing); 2 threads x 2 operations".to_string(), Box::new(|_| c10_preempt(&[Pipe::Subject, Pipe::Merge, Pipe::Zip, Pipe::CombineLatest, Pipe::TakeUntil, Pipe::MergeAll, Pipe::Share, Pipe::ObserveOn, Pipe::Delay, Pipe::Finalize, Pipe::Debounce, Pipe::ThrottleTail, Pipe::ConcatAll, Pipe::ConcatQueued], 2, 3)), 3_000_000, 40_000_000);
   add("c05_threads_iter", vec!["C05", "C16"], "flat_map_threads over a hot inner and a synchronous from_iter inner: another thread terminates the output while the iterator inner is emitting; it must stop pulling (no blocking on an unbounded iterator)", |_| "2 threads x 2 operations, <= 3 pre-emptions".to_string(), Box::new(|_| c10_preempt(&[Pipe::FlatMapIter], 2, 3)), 3_000_000, 40_000_000);
   add("c02_threads_sched", vec!["C02", "C19"], "a pool worker thread polling scheduled tasks (subscribe_on / delay_subscription over a synchronous source, observe_on_threads, delay_threads, interval) racing an unsubscribing thread at every lock acquisition and inside callbacks", |_| "5 pipelines; worker: 3 executor steps; 1 unsubscribe; <= 3 pre-emptions".to_string(), Box::new(|_| c02_threads_sched()), 3_000_000, 40_000_000);
+  add("c04_threads_preempt", vec!["C04", "C10"], "the two-input _threads combinators with their two inputs driven by two logical threads: monitors + serialisability (a terminal of one input must not be lost or duplicated while the other input is delivering)", |_| "merge, zip, combine_latest, with_latest_from, take_until, skip_until, sample _threads; 2 threads x 2 operations; <= 3 pre-emptions".to_string(), Box::new(|_| c10_preempt(&[Pipe::Merge, Pipe::Zip, Pipe::CombineLatest, Pipe::WithLatestFrom, Pipe::TakeUntil, Pipe::SkipUntil, Pipe::Sample], 2, 3)), 3_000_000, 40_000_000);
   add("c06_threads", vec!["C06"], "SubjectThreads under two logical threads: every subscriber's log stays well-formed and all subscribers agree on the order", |t| format!("2 threads x {} operations", if t { 3 } else { 2 }), Box::new(|t| c10_preempt(&[Pipe::Subject], if t { 3 } else { 2 }, 3)), 3_000_000, 40_000_000);
   add("c12_threads", vec!["C12"], "BehaviorSubject over SubjectThreads: two producers and a late subscriber; peek() = last value in the common delivery order", |_| "2 threads x 2 operations".to_string(), Box::new(|_| c10_preempt(&[Pipe::Behavior], 2, 3)), 3_000_000, 40_000_000);
   add("c15_threads", vec!["C15"], "finalize_threads: a terminating thread racing an unsubscribing thread: exactly once", |_| "2 threads x 2 operations".to_string(), Box::new(|_| c10_preempt(&[Pipe::Finalize], 2, 3)), 3_000_000, 40_000_000);
